@@ -7,12 +7,12 @@ use crate::prelude::*;
 use crate::iter_shims::*;
 use crate::tokens::*;
 use crate::model_common::*;
+use crate::model_types::*;
 
 verus! {
 
-// ---------------- abstract contract of wgsl::rust_type (its own unit refines this) ----------------
-pub uninterp spec fn pre_rust_type(m: &naga::Module, t: &naga::Type, f: crate::MatrixVectorTypes) -> bool;
-pub uninterp spec fn spec_rust_type(m: &naga::Module, t: &naga::Type, f: crate::MatrixVectorTypes) -> Seq<Tok>;
+// wgsl::rust_type is used through its PROVED contract (unit wgsl_types: model_types::{ty_supported, rty_toks}); this file states
+// what that means for an override, whose WGSL type is a scalar: the field has the Rust scalar type of the same kind and width.
 
 // ---------------- C15 ----------------
 pub open spec fn constants(m: &naga::Module) -> Seq<naga::Constant> { arena_seq(&m.constants) }
@@ -82,7 +82,8 @@ pub open spec fn is_bool_override(m: &naga::Module, o: &naga::Override) -> bool 
 pub open spec fn rust_mvt() -> crate::MatrixVectorTypes { crate::MatrixVectorTypes::Rust }
 pub open spec fn override_field(m: &naga::Module, o: &naga::Override) -> Seq<Tok> {
     let name = seq![Tok::Id(o.name->0@)];
-    let ty = spec_rust_type(m, &uarena_seq(&m.types)[handle_index(o.ty)], rust_mvt());
+    // [C12] of the matching scalar type: the Rust scalar of the same kind and width as the override's WGSL type
+    let ty = match override_scalar(m, o) { Some(s) => scalar_toks(s.kind, s.width)->0, None => Seq::empty() };
     if o.init is Some { ts!(pub #name: Option<#ty>) } else { ts!(pub #name: #ty) }   // optional exactly when the WGSL declaration has a default
 }
 pub open spec fn override_required(m: &naga::Module, o: &naga::Override) -> Option<Seq<Tok>> {
@@ -130,11 +131,30 @@ pub open spec fn overrides_toks(m: &naga::Module) -> Seq<Tok> {
         )
     }
 }
+// the scalar type of an override, if it is one the generator supports
+pub open spec fn override_scalar(m: &naga::Module, o: &naga::Override) -> Option<naga::Scalar> {
+    match uarena_seq(&m.types)[handle_index(o.ty)].inner {
+        naga::TypeInner::Scalar(s) => if scalar_toks(s.kind, s.width) is Some { Some(s) } else { None },
+        _ => None,
+    }
+}
+// [C12] "of the matching scalar type": the field type of a supported override is exactly the Rust scalar of the same kind and width
+pub proof fn lemma_override_field_type(m: &naga::Module, o: &naga::Override)
+    requires 0 <= handle_index(o.ty) < uarena_seq(&m.types).len(), override_scalar(m, o) is Some,
+    ensures
+        ty_supported(m, &uarena_seq(&m.types)[handle_index(o.ty)]),
+        rty_toks(m, &uarena_seq(&m.types)[handle_index(o.ty)], rust_mvt()) == scalar_toks(override_scalar(m, o)->0.kind, override_scalar(m, o)->0.width)->0,
+{
+    let i = handle_index(o.ty);
+    let t = uarena_seq(&m.types)[i];
+    assert(tys(m)[i] == t && ty_supported_idx(m, i));
+    lemma_ty_idx(m, &t, i);
+}
 pub open spec fn overrides_supported(m: &naga::Module) -> bool {
     forall|i: int| 0 <= i < overrides(m).len() ==> {
         &&& (#[trigger] overrides(m)[i]).name is Some     // the WGSL front end always names overrides
         &&& 0 <= handle_index(overrides(m)[i].ty) < uarena_seq(&m.types).len()
-        &&& pre_rust_type(m, &uarena_seq(&m.types)[handle_index(overrides(m)[i].ty)], rust_mvt())
+        &&& override_scalar(m, &overrides(m)[i]) is Some     // WGSL: an override has a scalar type (bool, i32, u32, f32; f16 is outside the feature set)
     }
 }
 
